@@ -165,7 +165,7 @@ def finish(agg, level, coverage, assumptions, floors=()):
     floors: list of (description, ok_bool): a run that observed too little is inconclusive."""
     prop = agg.prop
     known = load_known()
-    listed = {f["key"]: f for f in known.get("findings", []) if f.get("property") == prop}
+    listed = {f["key"]: f for f in known.get("findings", []) if f.get("property") == prop or prop in f.get("also", [])}
     by_key = {}
     for v in agg.viols:
         by_key.setdefault(v["key"], []).append(v)
